@@ -26,6 +26,9 @@ LABEL_FLOORS = {'near': 0.3, 'far': 0.3, 'neg-step': 0.1, 'inexact-step': 0.3}
 FLOOR_EXCLUDE_LABEL = 'enumerated-axis'   # floors are fractions of the generated part
 
 BASE = ['-f', '30', '--wire=4,0,0,-2.4,0,0,2.4,0.002', '--excitation-pulse=2']
+# the same dipole standing over a ground plane (field points may lie anywhere, also on and below the plane)
+BASE_GND = {'ideal': ['-f', '30', '--wire=4,0,0,0.2,0,0,5.0,0.002', '--excitation-pulse=2', '--medium=0,0,0'],
+            'real': ['-f', '30', '--wire=4,0,0,0.2,0,0,5.0,0.002', '--excitation-pulse=2', '--medium=13,0.005,0']}
 STEPS = [0.1, 0.05, 0.2, 0.3, 1 / 3., 0.7, 1.0, 2.5, 1e-3, 0.15, -0.1, -0.05, -1 / 3., -1.0, 0.6, 1.1]
 STARTS = [0.0, 1.0, -1.0, 0.1, 0.3, -0.7, 10.0, 5.5, 100.0, -2.05, 1 / 3., 3.3]
 
@@ -61,7 +64,7 @@ def case_strategy(draw):
         i = int(np.argmax([a[2] for a in ax]))
         ax[i][2] = max(1, ax[i][2] // 2)
     # keep the points away from the wire (on the z axis, |z| <= 2.4): shift x so that |x| >= 0.5 where needed
-    return {'kind': 'near', 'axes': ax}
+    return {'kind': 'near', 'axes': ax, 'ground': draw(st.sampled_from([None, None, None, 'ideal', 'ideal', 'real']))}
 
 
 def strategy(tier):
@@ -166,7 +169,11 @@ def check(case):
     else:
         ax = case['axes']
         opt = ','.join([fnum(a[0]) for a in ax] + [fnum(a[1]) for a in ax] + [str(a[2]) for a in ax])
-        argv = BASE + ['--near-field=' + opt]
+        argv = (BASE_GND[case['ground']] if case.get('ground') else BASE) + ['--near-field=' + opt]
+        if case.get('ground'):
+            labels.append('near-over-ground')
+            if any(z < 0 for z in expected_axis(ax[2])):
+                labels.append('near-points-below-the-plane')
         ex = [expected_axis(a) for a in ax]
         want = [(x, y, z) for z in ex[2] for y in ex[1] for x in ex[0]]
         try:
